@@ -363,6 +363,7 @@ def run(ctx):
     ctx.rule("shape/capture-roundtrip", "per captured document shape, all content octets symbolic: serialise -> parse restores every token id / value / attribute, and re-serialising gives the same bytes")
     ctx.rule("shape/inline-constant-table", "the same for the document id WITH constant table: empty, 1-octet and 3-octet (symbolic) inline tables")
     ctx.rule("buffer/several-documents", "2 and 3 documents in one buffer parse into exactly those documents (announced lengths consumed exactly)")
+    ctx.rule("table/document-implementation", "every LRRP document id is handed to the LRRP implementation by MBXML.get_implementation (constant evaluation per id)")
     ctx.rule("table/document-kind", "every LRRP document id is parsed with the element-token table of its kind: ...Request documents with the request tokens, ...Report / ...Answer documents with the answer-and-report tokens (constant evaluation of get_configuration per id)")
     ctx.rule("api/token-pairs", "a document holding the same attribute-bearing token twice (with / without attributes, both orders, twice with attributes) parses back into two tokens each with exactly its own attributes")
     ctx.rule("api/token-roundtrip", "a document holding one token obtained through get_token (every implemented token, every attribute choice, symbolic content, boundary numbers) serialises to bytes that parse back into the same token id, value and attributes")
@@ -523,6 +524,29 @@ def doc_table_rules(ctx, repo, lrrp, docid):
         ctx.ob("table/document-kind", f"{name} ({mem.value[0] if isinstance(mem.value, tuple) else mem.value!r})", ok,
                f"a {kind} document parsed with {len(keys)} element tokens: {len(want & keys)}/{len(want)} of the {kind}-only tokens, {len(other & keys)} tokens of the other kind", gc.loc)
     ctx.coverage("table/document-kind", "LRRP document ids", n, 12, f"{n} document ids evaluated", gc.loc)
+    # which class parses a document id: every LRRP id must be handed to the LRRP implementation (constant evaluation per id)
+    mbci = repo.cls(MOD, "MBXML")
+    gi = repo.find_method(mbci, "get_implementation")
+    if gi is not None:
+        ctx.saw_func(gi)
+        m_ = 0
+        for name, mem in repo.enum_members(docid).items():
+            if not name.startswith("LRRP_"):
+                continue
+            I = mk_interp(repo)
+
+            def run_i(st, mem=mem):
+                I.st = st
+                return I.call(gi, [ClassRef(mbci), mem], {})
+            res = explore(run_i, max_paths=8)
+            if len(res) != 1 or res[0][1][0] != "ok":
+                raise AnalysisError(f"get_implementation({name}): " + "; ".join(f"{k}:{v}" for _, (k, v) in res)[:200])
+            got = res[0][1][1]
+            m_ += 1
+            ok = isinstance(got, ClassRef) and got.info is lrrp
+            ctx.ob("table/document-implementation", f"{name} ({mem.value[0] if isinstance(mem.value, tuple) else mem.value!r})", ok,
+                   f"parsed by {got.info.name if isinstance(got, ClassRef) else got!r}" + ("" if ok else f", expected {lrrp.name}"), gi.loc)
+        ctx.coverage("table/document-implementation", "LRRP document ids", m_, 12, f"{m_} document ids evaluated", gi.loc)
 
 
 def api_rules(ctx, repo, mb, lrrp, docid, implemented, attrs):
